@@ -5,6 +5,18 @@ HERE = os.path.dirname(os.path.dirname(os.path.abspath(__file__)))
 PROPS = [json.loads(l) for l in open(os.path.join(HERE, 'properties.jsonl'))]
 
 CLAIMED = {
+ 'C14': dict(
+   category='proof',
+   text='Round trip from_string(to_string(v)) == v on the real field methods: booleans and every enumeration used by an EnumField (all members and the empty choice) exhaustively; IntegerField, StringField and FloatField with places 0, 2, 5 symbolically for every value in the range of the field (exact places-decimals), z3. ValueStore.to_config: for every stored name exactly to_string(definition of that name, value) is written under form -> line. PDFFiller._read_form_fields stores every entry as from_string(definition registered under the same full name, text). habutax.solve records tax_year = args.year in the solution; fill_pdfs reads it, parses with the default dialect and hands exactly that year\'s catalogue to the filler (all three years reachable, unknown year aborts).',
+   design_ref='DESIGN 4 C14',
+   note='A-BUILTIN: int(str(n)) == n; the fixed-point text of an exact p-decimal denotes it and float() returns it; round of an exact p-decimal is the identity (IEEE-754 side checked only by a bounded native sweep, labelled bounded). INI transport of text (whitespace, multi-line) is A-CFG and not verified.',
+   technique='function contracts on the real to_string/from_string pairs by symbolic execution + z3; structural contracts of the writer/reader loops'),
+ 'C19': dict(
+   category='proof',
+   text='PDFFiller._create_fdf executed symbolically with a symbolic field name and value: cvc5 proves the written entry equals "<< /T (" esc(name) ") /V (" esc(value) ") >>" where esc escapes backslash and both parentheses (ISO 32000-1 literal strings), for all strings. TextPDFField / ChoicePDFField / ButtonPDFField value(): returns exactly the text when it fits / is a listed choice, raises otherwise, never truncates. needs_filing of every catalogued form (76 instances) executed symbolically: boolean on every path, False for worksheets and input-only forms. PDFFiller.fill: bounded stand-in (stub forms, every subset and order of up to 3 forms incl. two instances of one class).',
+   design_ref='DESIGN 4 C19',
+   note='A-PDFTK (pdftk absent); Python str.replace == str.replace_all; fill() itself only bounded (list length 3); _fill_form mapping loop is C18.',
+   technique='string obligation from the real code discharged by cvc5; method contracts by symbolic execution'),
  'C11': dict(
    category='proof',
    text='InputStore.__getitem__ executed symbolically on the real code (config by A-CFG): the four outcomes are exactly spec unknown -> MissingInputSpecification, declared but not supplied -> MissingInput, supplied but rejected -> InvalidInput carrying the text, else the conversion of exactly the supplied text, validated before converted. Every input class (String, Boolean, Integer, Float, Enum with/without empty, Regex, SSN) on a symbolic string: valid() never raises; text that valid() accepts converts without error to the declared type; an accepted number is finite (float() by an assumed grammar that includes inf/infinity/nan). prompt_input (retry loop by the havoc rule): an answer is returned only if the validator accepts it, Ctrl-C means refused, other interruptions propagate. The solver stores an answer only after the validity assertion.',
